@@ -115,6 +115,7 @@ def check(run):
     check_inline_memos(run, 'C16-R4', prog, eff, sorted(concrete, key=lambda c_: c_.qual))
     run.subject('C16-R4')
     run.ok('C16-R4', 'inline memo rule', 'self-check on the built-in example: late reset and missing reset reported, correct mutator accepted', sample=False)
+    _filter_range(run, prog)
     from ..cachekey import check_caches
     check_caches(run, [m for k, m in prog.modules.items() if k.startswith('cherab.tools.spectroscopy')], 'C16-K', prog=prog)
 
@@ -378,17 +379,89 @@ def const_index(sl):
     return const_fold(sl) is not None
 
 
+def _filter_range(run, prog):
+    """R5: the wavelength range a filter reports (which the polychromator's spectral range is the union of) is that of its samples: the
+    first / last element of the wavelength array is its minimum / maximum only once the array has been sorted."""
+    run.describe('C16-R5', 'PolychromatorFilter: the reported wavelength range is taken from the sorted wavelength array (or is its min / max)')
+    ci = next((c for c in prog.classes.values() if c.name == 'PolychromatorFilter'), None)
+    if ci is None or '__init__' not in ci.methods:
+        raise AnalysisError('anchored class vanished: PolychromatorFilter')
+    fn = ci.methods['__init__']
+    K = '%s|PolychromatorFilter|__init__|range' % ci.mod.name
+    srt = set()           # names holding an ascending array at this point
+    idx = {}              # index name -> array it sorts
+    seen = 0
+    for st in fn.body:
+        if not isinstance(st, ast.Assign) or len(st.targets) != 1:
+            continue
+        t, v = st.targets[0], st.value
+        if isinstance(t, ast.Name):
+            if isinstance(v, ast.Call) and (dotted(v.func) or '').split('.')[-1] == 'argsort' and v.args and isinstance(v.args[0], ast.Name) and not v.keywords:
+                idx[t.id] = v.args[0].id
+                continue
+            if isinstance(v, ast.Call) and (dotted(v.func) or '').split('.')[-1] == 'argsort' and isinstance(v.func, ast.Attribute) \
+                    and isinstance(v.func.value, ast.Name) and not v.args:
+                idx[t.id] = v.func.value.id
+                continue
+            if isinstance(v, ast.Subscript) and isinstance(v.value, ast.Name) and isinstance(v.slice, ast.Name) and idx.get(v.slice.id) == v.value.id:
+                if t.id == v.value.id:
+                    srt.add(t.id)
+                    idx = {k_: a_ for k_, a_ in idx.items()}
+                else:
+                    srt.add(t.id)
+                continue
+            if isinstance(v, ast.Call) and (dotted(v.func) or '').split('.')[-1] == 'sort' and v.args and isinstance(v.args[0], ast.Name):
+                srt.add(t.id)
+                continue
+            if t.id in srt and not (isinstance(v, ast.Call) and (dotted(v.func) or '').split('.')[-1] in ('insert', 'append')):
+                srt.discard(t.id)
+            continue
+        tn = norm(t)
+        if tn in ('self._min_wavelength', 'self._max_wavelength'):
+            seen += 1
+            run.subject('C16-R5')
+            want = '0' if 'min' in tn else '-1'
+            if isinstance(v, ast.Subscript) and isinstance(v.value, ast.Name) and norm(v.slice) == want:
+                if v.value.id in srt:
+                    run.ok('C16-R5', tn, '%s of the sorted array' % norm(v), sample=False)
+                elif any(a_ == v.value.id for a_ in idx.values()) or any(
+                        isinstance(x, ast.Call) and (dotted(x.func) or '').split('.')[-1] in ('argsort', 'sort') for q in fn.body for x in ast.walk(q)):
+                    run.fail('C16-R5', K + '|' + tn, ci.mod.relpath, st.lineno,
+                             "PolychromatorFilter takes %s = %s before the wavelength array is sorted: for samples not given in ascending order "
+                             "the reported range (and the window and central wavelength derived from it) is not that of the filter, so the "
+                             "polychromator's spectral range does not cover it" % (tn, norm(v)))
+                else:
+                    run.undecided('C16-R5', tn, 'no sorting of the wavelength array found')
+            elif isinstance(v, ast.Call) and (dotted(v.func) or '').split('.')[-1] in ('min', 'max', 'amin', 'amax', 'nanmin', 'nanmax') \
+                    and ('min' in (dotted(v.func) or '')) == ('min' in tn):
+                run.ok('C16-R5', tn, norm(v), sample=False)
+            else:
+                run.undecided('C16-R5', tn, 'range value %s not recognised' % norm(v)[:40])
+    if not seen:
+        run.subject('C16-R5')
+        run.undecided('C16-R5', 'PolychromatorFilter range', 'stores of the range not found at the top level of __init__')
+    run.floor('C16-R5', 1)
+
+
 def _spectrometer_settings(run, prog, ci, K):
     from ..inline import prep, class_lookup
     us0 = ci.methods.get('_update_spectral_settings')
     if us0 is None:
         raise AnalysisError('anchored method vanished: Spectrometer._update_spectral_settings')
-    us = prep(us0, class_lookup(prog, ci))
+    from ..inline import desugar_reductions
+    us = prep(desugar_reductions(us0), class_lookup(prog, ci))
     tx = {}
     for st in ast.walk(us):
         if isinstance(st, ast.Assign) and len(st.targets) == 1:
             tx[norm(st.targets[0])] = st.value
     W = 'self._wavelength_to_pixel'
+    for x_ in ast.walk(us):
+        if isinstance(x_, ast.Call) and dotted(x_.func) == '__last__':
+            run.subject('C16-R2')
+            run.fail('C16-R2', K + '_update_spectral_settings|last-only', ci.mod.relpath, getattr(x_, 'lineno', us0.lineno),
+                     'Spectrometer._update_spectral_settings overwrites %s for every accommodated spectrum instead of accumulating over them: '
+                     'the value of the last array is used, so the settings depend on the order of the spectra and the bins can be wider than the '
+                     'narrowest pixel / min_bins_per_pixel' % norm(x_.args[0].elt)[:60])
     for fld, fname, want_idx, other in (('self._min_wavelength', 'min', '0', 'max'), ('self._max_wavelength', 'max', '-1', 'min')):
         run.subject('C16-R2')
         e = tx.get(fld)
@@ -417,7 +490,9 @@ def _spectrometer_settings(run, prog, ci, K):
             and dotted(e.args[0].func) in ('np.ceil', 'ceil', 'math.ceil') and isinstance(e.args[0].args[0], ast.BinOp) \
             and isinstance(e.args[0].args[0].op, ast.Div):
         q = e.args[0].args[0]
-        if norm(q.left) in ('self._max_wavelength - self._min_wavelength', 'self.max_wavelength - self.min_wavelength'):
+        same_ = tx.get('self._max_wavelength') is not None and tx.get('self._min_wavelength') is not None and isinstance(q.left, ast.BinOp) \
+            and isinstance(q.left.op, ast.Sub) and norm(q.left.left) == norm(tx['self._max_wavelength']) and norm(q.left.right) == norm(tx['self._min_wavelength'])
+        if same_ or norm(q.left) in ('self._max_wavelength - self._min_wavelength', 'self.max_wavelength - self.min_wavelength'):
             step = q.right
             run.ok('C16-R2', 'Spectrometer bins', 'int(ceil((max - min) / step))')
         else:
